@@ -175,18 +175,12 @@ func genC12(rt *rapid.T) C12Case {
 		c.FillDefault = rapid.IntRange(0, 2).Draw(rt, "fill") == 0
 	}
 	nkeys := rapid.IntRange(1, 6).Draw(rt, "nkeys")
-	nops := rapid.IntRange(1, 60).Draw(rt, "nops")
 	kinds := []string{"put", "put", "put", "get", "get", "get", "delete", "clear", "sweep", "size", "stats", "keys", "advance", "advance"}
-	val := 0
-	for i := 0; i < nops; i++ {
+	opGen := rapid.Custom(func(rt *rapid.T) LRUOp {
 		k := rapid.SampledFrom(kinds).Draw(rt, "kind")
 		op := LRUOp{Kind: k}
 		switch k {
-		case "put":
-			val++
-			op.Key = rapid.IntRange(0, nkeys-1).Draw(rt, "key")
-			op.Val = val
-		case "get", "delete":
+		case "put", "get", "delete":
 			op.Key = rapid.IntRange(0, nkeys-1).Draw(rt, "key")
 		case "advance":
 			// steps around the lifetime boundary
@@ -202,7 +196,14 @@ func genC12(rt *rapid.T) C12Case {
 				op.Adv = 0
 			}
 		}
-		c.Ops = append(c.Ops, op)
+		return op
+	})
+	minLen := rapid.SampledFrom([]int{1, 1, 8, 20, 35}).Draw(rt, "minlen")
+	c.Ops = rapid.SliceOfN(opGen, minLen, 60).Draw(rt, "ops")
+	for i := range c.Ops {
+		if c.Ops[i].Kind == "put" {
+			c.Ops[i].Val = i + 1 // unique values: every read is attributable to one write
+		}
 	}
 	return c
 }
